@@ -74,11 +74,11 @@ claim('C10', 'effect-site gates across a closure (captured cells resolved to the
 claim('C11', 'interprocedural ownership/origin analysis of every write on the signing call tree + argument provenance + effect-site gates',
       'Static, all-paths: every map update, element store and store through a pointer reachable from SignOCI/SignBlob (closures included) targets fresh or signer-owned storage, never storage reachable from the caller\'s options or from the descriptor '
       'Repository.Resolve returned; Signer.Sign gets merge(resolved descriptor, UserMetadata), PushSignature gets the caller\'s media type, Sign\'s bytes, the resolved descriptor itself as subject and annotations generated from Sign\'s SignerInfo '
-      '(hex sha256 of every chain certificate, signing time, and nothing written into the returned map afterwards can replace them); digest pinning on the very string resolved, reserved-prefix and existing-key refusals and the merge error gate precede Sign; the repository is used for exactly one Resolve and one PushSignature. '
+      '(hex sha256 of every chain certificate, signing time, and nothing written into the returned map afterwards can replace them); digest pinning on the very string resolved, reserved-prefix and existing-key refusals and the merge error gate precede Sign; the repository is used for exactly one Resolve and one PushSignature; PushSignature is reachable only after Signer.Sign and the annotation generator succeeded (every fallible source of the thumbprint / created annotations error-checked) and SignOCI reports success only after PushSignature did. '
       'Necessary conditions for "signing twice succeeds twice" for every descriptor, metadata map and reference; repository and signer internals are trusted.', 'DESIGN.md 2/C11')
 
 claim('C12', 'panic-site inventory with local discharge proofs (guards, filter/producer summaries, correlated nil-check tracking) + outcome/error consistency + size-cap gates + error-discipline lint',
-      'Static: every non-comma-ok type assertion, slice/string index and slice expression, dereference of the nilable-by-API pointers and of pointers that come out of decoded external data (elements of maps/slices of pointers to JSON structs, pointer fields of JSON structs: nil test required, comma-ok does not count), call through a nilable verifier field, MustCompile, map update and explicit panic in the product packages is '
+      'Static: every non-comma-ok type assertion, slice/string index and slice expression, dereference of the nilable-by-API pointers and of pointers that come out of decoded external data (elements of maps/slices of pointers to JSON structs, pointer fields of JSON structs: nil test required, comma-ok does not count) and of pointer/interface parameters that the function itself compares with nil, call through a nilable verifier field, MustCompile, map update and explicit panic in the product packages is '
       'enumerated and discharged by a proof visible in the code (dominating guard, loop induction over the same/equal-length slice, producer filter summary, constructor post-condition) or by a table line with reason; the two verifier methods '
       'return (outcome, nil) only on paths no error store reaches and otherwise the error just stored; every FetchAll / ReadAll of fetched content is cut by a positive cap on the descriptor fetched (also when the fetch sits in a helper); the compiler-inserted range-over-func misuse panics are exempt only when every ranged iterator comes from outside the module; no decoder error is dropped. '
       'Covers the enumerated panic classes of the module\'s own code for all inputs and configurations; panics and allocations inside dependencies are not analysed.', 'DESIGN.md 2/C12')
@@ -96,13 +96,13 @@ claim('C14', 'typestate of the temp-file protocol + who-may-write inventory + pa
       'The hook proposed in the property record (pausing WriteFile at step boundaries) belongs to a dynamic technique and is not used.')
 claim('C15', 'reader/writer field agreement + must-check gates (incl. disjunctive delta gates) + path provenance (URL confinement) on SSA',
       'Static, all-paths: Set stores bundle.X.Raw into entry field X and Get parses field X into bundle.X under distinct JSON names; Get succeeds only through read, decode, base parse, delta parse when stored, base expiry and delta expiry when present; '
-      'the expiry helper fails on zero NextUpdate and maps time.Now().After(nextUpdate) to the miss sentinel; a missing file is a miss; every file-system path of Get and Set is Join(root, hex(sha256(url))) of the full unsliced hash of exactly the URL string; '
+      'the expiry helper fails on zero NextUpdate and maps time.Now().After(nextUpdate) to the miss sentinel; a missing file is a miss and, once the read failed, no error other than the miss sentinel is returned except behind the failing edge of the not-exist test; every file-system path of Get and Set is Join(root, hex(sha256(url))) of the full unsliced hash of exactly the URL string; '
       'Set refuses nil bundle/base and propagates marshal and write errors, writing the marshalled entry. Byte fidelity through std parsers and SHA-256 collision freedom are trusted.', 'DESIGN.md 2/C15')
 
 claim('C16', 'taint analysis with certified sanitizers (regexp/syntax certification, leaf decomposition through concatenation/Join/module helpers, value-identity of the validated leaf) + who-may-call + forward-use inventory',
       'Static, all-paths: every path handed to the plugin file system by the manager (Get, Install, Uninstall) has as non-constant leaves exactly the SSA values that a dominating, fail-closed validation accepted, where a validator counts only if its success implies the '
       'certified single-component file-name predicate (no separator, NUL, empty, ".", ".."); deletion only happens on such a path; the verifier passes the signature-supplied name only to Manager.Get; listing reports an entry only for a non-root, directory, non-symlink '
-      'DirEntry type, and conversely every way through the listing callback records the name of an entry that is a real directory other than the root, and the callback answers fs.SkipDir only for a directory and never fs.SkipAll (no plugin directory is dropped from the listing). Holds for every name string at once; also analysed under GOOS=windows in the thorough tier. What the OS does with a validated single component is trusted.', 'DESIGN.md 2/C16')
+      'DirEntry type, and conversely every way through the listing callback records the name of an entry that is a real directory other than the root, and the callback answers fs.SkipDir only for a directory and never fs.SkipAll (no plugin directory is dropped from the listing), and a walk error other than not-exist is handed back: a failed walk is never reported as a complete listing. Holds for every name string at once; also analysed under GOOS=windows in the thorough tier. What the OS does with a validated single component is trusted.', 'DESIGN.md 2/C16')
 claim('C17', 'typestate of the exec.Cmd object (dominating unconditional stores) + must-check gates + guarded error-mapping table + who-may-call',
       'Static: decides the structural preconditions of containment — the only process start is exec.CommandContext with the caller\'s context; before Run, unconditionally, Stdout and Stderr are the module\'s limited writer with a positive constant cap, WaitDelay is a positive constant '
       'and Stdin is the request; the limited writer forwards only with a positive remaining budget, at most that budget, and accounts every forwarded byte (remaining counter or written counter); the runner succeeds only on process success and a whole-buffer json.Unmarshal of stdout; the three failure mappings and all metadata gates (incl. name == plugin name) are fail-closed, and every failing exit of the process runner after Run hands on the captured stderr (Bytes() of the buffer behind cmd.Stderr) so that the structured error the plugin printed can be reported. '
@@ -119,7 +119,7 @@ claim('C19', 'effect-site gates (size cap on the fetched descriptor, per loop it
       'Static, all-paths: decides the structural clauses of the round-trip property — every content.FetchAll of the registry package is reachable only through a positive constant cap on the very descriptor it fetches; FetchSignatureBlob returns the fetch of the looked-up descriptor, '
       'the lookup admits only the two manifest media types, decodes into the manifest type of that media type and requires exactly one layer/blob, returning element 0 of the decoded list; the listing appends an element only, per iteration and per branch, through cap, fetch, decode into a per-iteration '
       'fresh target, non-nil subject content.Equal to the requested descriptor, and the notation artifact type read from the manifest decoded in that iteration, returning nothing on failure; PushSignature pushes the caller\'s media type and bytes and packs subject, annotations, the pushed blob as the single layer '
-      'and the immutable notation config whose media type is the type the listing filters on. NOT decided: byte equality itself (content addressing of oras-go is trusted) and histories in a real layout.', 'DESIGN.md 2/C19')
+      'and the immutable notation config whose media type is the type the listing filters on, the config helper succeeding only if the config blob is known to be in the store (Exists true, Push nil or already-exists); the two size caps are followed through a fetch helper's limit parameter to the constant at each call site and pinned by class (bytes decoded as a manifest: at most 4 MiB, the envelope blob: at most 32 MiB). NOT decided: byte equality itself (content addressing of oras-go is trusted) and histories in a real layout.', 'DESIGN.md 2/C19')
 
 claim('C20', 'effect inventory + effect-site gates + finite decision table by abstract interpretation of Install (216 scenarios) + ordering (dominance and cut sets) + constant-pattern classification + closure analysis of the WalkDir callbacks + sibling agreement (binName / parsePluginName)',
       'Static, all-paths: every call of CLIManager.Install that can modify the plugin directory is reachable only after non-empty source, certified name validation, NewCLIPlugin and GetMetadata success of the new plugin, on that one name; the decision table over '
